@@ -38,7 +38,7 @@ def ru_record(ip, fp, dot, prec, fn):
     return {'k': 'ru', 'ip': D(ip), 'fp': D(fp), 'dot': dot, 'prec': prec, 'out': out, 's': s}
 
 
-def ft_record(x, prec, fn):
+def ft_record(x, prec, fn, parse=None):
     fx = Fraction(x)
     w = int(fx)
     fr = (fx - w) * 100000
@@ -55,6 +55,8 @@ def ft_record(x, prec, fn):
         fs = [g for g in m.group(1, 2, 3) if g is not None]
         out = {'ok': True, 'fields': [int(g) for g in fs], 'widths': [len(g) for g in fs],
                'fd': D(m.group(5) or ''), 'dot': m.group(4) == '.'}
+    # "parses back": the library's own parse_hms on the formatted text
+    out['pb'] = ph_out(parse, txt) if (parse is not None and isinstance(txt, str) and m) else {'t': 'none', 'w': 0, 'micro': 0}
     return {'k': 'ft', 'w': w, 'f5': f5, 'res': res, 'prec': prec, 'out': out, 'x': repr(x)}
 
 
@@ -85,7 +87,7 @@ def _work(job):
             out.append(ru_record(ip, fp, dot, prec, round_up_str_num))
     elif kind == 'ft':
         for x, prec in items:
-            out.append(ft_record(x, prec, format_seconds_as_time))
+            out.append(ft_record(x, prec, format_seconds_as_time, parse_hms))
     elif kind == 'ph':
         for fields, sep in items:
             text = sep.join(fields)
